@@ -12,18 +12,25 @@ pats=[]
 for d in dirs:
     if os.path.exists(os.path.join(d,'patch.diff')): pats.append(d)
     else: pats+=sorted(x for x in glob.glob(os.path.join(d,'*')) if os.path.exists(os.path.join(x,'patch.diff')))
-tot=fa=0
-for p in pats:
+def work(p):
+    import io, contextlib
+    buf=io.StringIO()
+    res={'tot':0,'fa':0}
+    with contextlib.redirect_stdout(buf):
+        one(p,res)
+    return buf.getvalue(),res
+def one(p,res):
+    global keep
     name=os.path.basename(os.path.dirname(p.rstrip('/'))).replace('ref_','')+'_'+os.path.basename(p.rstrip('/')) if '/ref_' in p else os.path.basename(p.rstrip('/'))
     d=tempfile.mkdtemp(prefix='/tmp/benchk.')
     subprocess.run(['rsync','-a','--exclude','.git','/repo/',d+'/'],check=True)
     r=subprocess.run('patch -p1 -s --no-backup-if-mismatch -i %s/patch.diff'%p,shell=True,cwd=d,capture_output=True,text=True)
     if r.returncode!=0:
-        print(name,'PATCH DOES NOT APPLY'); shutil.rmtree(d); continue
+        print(name,'PATCH DOES NOT APPLY'); shutil.rmtree(d); return
     b=subprocess.run('go build ./... && go test -vet=off -count=1 ./... 2>&1 | tail -2',shell=True,cwd=d,env=ENV,capture_output=True,text=True)
     if b.returncode!=0 or 'FAIL' in b.stdout or 'ok' not in b.stdout:
-        print(name,'BUILD/TEST FAILS — not a valid benign patch:',(b.stdout+b.stderr)[-200:]); shutil.rmtree(d); continue
-    tot+=1
+        print(name,'BUILD/TEST FAILS — not a valid benign patch:',(b.stdout+b.stderr)[-200:]); shutil.rmtree(d); return
+    res['tot']+=1
     alarms={}
     for pr in ALL:
         vd=tempfile.mkdtemp(prefix='/tmp/benverif.'); os.mkdir(vd+'/evidence'); shutil.copy('/verif/known_findings.json',vd)
@@ -33,13 +40,13 @@ for p in pats:
         shutil.rmtree(vd)
     shutil.rmtree(d)
     if alarms:
-        fa+=1
+        res['fa']+=1
         print('%s: FALSE ALARM in %s'%(name,','.join(sorted(alarms))))
         seen=set()
         for pr,h in alarms.items():
             for l in h:
                 k=l.replace('shared ','')[:140]
-                if k in seen: continue
+                if k in seen: return
                 seen.add(k); print('     ',l[:300])
     else:
         print('%s: silent'%name)
@@ -49,4 +56,12 @@ for p in pats:
         shutil.copy(p+'/patch.diff',dst)
         if os.path.exists(p+'/README.md'): shutil.copy(p+'/README.md',dst)
         json.dump({'kind':'behaviour-preserving refactoring','origin':'independent sub-agent given only a code area and a scratch worktree','confirmed':{'builds':True,'existing_tests_pass':True},'alarms':{k:len(v) for k,v in alarms.items()}},open(dst+'/meta.json','w'),indent=1)
-print('false alarms on %d of %d benign patches'%(fa,tot))
+
+if __name__=='__main__':
+    from multiprocessing import Pool
+    tot=fa=0
+    with Pool(8) as pool:
+        for txt,res in pool.imap(work,pats):
+            sys.stdout.write(txt); sys.stdout.flush()
+            tot+=res['tot']; fa+=res['fa']
+    print('false alarms on %d of %d benign patches'%(fa,tot))
